@@ -609,6 +609,58 @@ theorem explicit_required_example :
     ∧ fieldNames (elabClass noRe tm (K none fb')) = some (["a", "b", "c"], ["a", "b"]) :=
   ⟨rfl, rfl, rfl, rfl, rfl, rfl, rfl⟩
 
+/-! ### field and class level over the union of both proved regions (`classRegionX`) -/
+
+/-- On the union of the two regions - `fieldSupportedAt` (every spelling is its documented `denote`) and the union-tree
+    region (nested `Union` / `Optional` / `|`, with no default, a `= v` default or a default factory) - the model of
+    `StructMeta.__new__` yields the documented meaning `fieldMeaningX` (flattened where typing flattens). -/
+theorem elabField_meaningX (sc : Scope) (O : Oracles) (future : Bool) (fs : FieldSp)
+    (h : fieldRegionX O tm sc future fs = true) : elabFieldAt sc O tm future fs = fieldMeaningX O tm fs :=
+  elabFieldAt_meaningX sc O future fs h
+
+/-- Class level over the extended region: two class bodies whose fields pairwise have the same name and the same
+    documented meaning (`ClassSameX`: includes every `ClassSame` pair and all re-bracketings / re-spellings of nested
+    unions) give the same class statement outcome. -/
+theorem elabClass_equivX (O : Oracles) {c₁ c₂ : ClassSp} (h : ClassSameX O tm c₁.fields c₂.fields)
+    (hr : c₁.required = c₂.required)
+    (h₁ : classRegionX O tm c₁ = true) (h₂ : classRegionX O tm c₂ = true) :
+    elabClass O tm c₁ = elabClass O tm c₂ := by
+  simp only [elabClass, elabFields_sameX O c₁.scope c₂.scope c₁.future c₂.future h h₁ h₂, hr]
+  cases he : elabFields O tm c₂.scope c₂.future c₂.fields with
+  | error e => rfl
+  | ok rs =>
+    simp only [bindE_ok]
+    exact finishClass_opt_irrelevant _ _ _ rs (elabFields_allFieldX O c₂.scope c₂.future c₂.fields rs h₂ he)
+
+/-- ... and agree on every observation of the class (constructor, Serializer, Deserializer, schema). -/
+theorem same_observationX {α : Type} (O : Oracles) {c₁ c₂ : ClassSp} (h : ClassSameX O tm c₁.fields c₂.fields)
+    (hr : c₁.required = c₂.required)
+    (h₁ : classRegionX O tm c₁ = true) (h₂ : classRegionX O tm c₂ = true) (obs : FieldDecl → R α) :
+    observe O c₁ obs = observe O c₂ obs := by
+  simp only [observe, elabClass_equivX O h hr h₁ h₂]
+
+/-- `FieldSame` spellings inside the old region are `FieldSameX` (the extended relation loses nothing). -/
+theorem fieldSame_sameX (O : Oracles) {a b : FieldSp} (h : FieldSame a b)
+    (ha : flatRegion tm a = false) (hb : flatRegion tm b = false) : FieldSameX O tm a b :=
+  ⟨h.name, by simp [fieldMeaningX, ha, hb, fieldMeaning_same O h]⟩
+
+/-- non-vacuity: `a: Union[Union[int, None], str] = 7; b: str` (future import) and `a: int | (None | str) = 7; b = String`
+    are `ClassSameX`, both in the extended region (the first field outside `fieldSupported`), and construct / serialize
+    identically: `K(b='x')` gives `{"a": 7, "b": "x"}`. -/
+theorem classX_example :
+    let a₁ : FieldSp := { name := "a", mode := .ann, ty := .union (.union (.builtin .int) .noneLit) (.builtin .str), dflt := .eq (.int 7) 1 }
+    let a₂ : FieldSp := { name := "a", mode := .ann, ty := .pipe (.builtin .int) (.pipe .noneLit (.builtin .str)), dflt := .eq (.int 7) 1 }
+    let b₁ : FieldSp := { name := "b", mode := .ann, ty := .builtin .str }
+    let b₂ : FieldSp := { name := "b", mode := .assign, ty := fStr }
+    let c₁ : ClassSp := { future := true, fields := [a₁, b₁] }
+    let c₂ : ClassSp := { future := false, fields := [a₂, b₂] }
+    ClassSameX noRe tm c₁.fields c₂.fields
+    ∧ classRegionX noRe tm c₁ = true ∧ classRegionX noRe tm c₂ = true ∧ classSupported noRe tm c₁ = false
+    ∧ classSerialize noRe c₁ [("b", .str "x")] = .ok (.dict [(.str "a", .int 7), (.str "b", .str "x")])
+    ∧ classSerialize noRe c₂ [("b", .str "x")] = .ok (.dict [(.str "a", .int 7), (.str "b", .str "x")])
+    ∧ classBehaviour noRe c₁ [("a", .float ⟨1, 2⟩), ("b", .str "x")] = .error .valueErr :=
+  ⟨ClassSameX.cons ⟨rfl, rfl⟩ (ClassSameX.cons ⟨rfl, rfl⟩ ClassSameX.nil), rfl, rfl, rfl, rfl, rfl, rfl⟩
+
 /-! ### Structure classes as field types, two-element tuples -/
 
 /-- the Structure class `class Owner(Structure): name: str` -/
